@@ -80,13 +80,18 @@ T_C04_SaturatedGetsNothing == Observed => C02_Bound
 T_C05_PausedNoDispatch == (Observed /\ obs.ev = "step") => (obs.pe => obs.ndisp = 0)
 T_C05_UdsReachable == Observed => (running => (~connRefused /\ \A k \in Listeners : pathOk[k]))
 T_C05_ListenerLive == (Observed /\ obs.ev = "step") => C03_Pred(obs.q)
+\* after the back-off every listener accepts again: once the loop has settled no listener still carries a deadline
+\* that has already passed (it has been re-registered, or the deadline was dropped because the server is paused)
+T_C05_BackoffExpires == (Observed /\ obs.ev = "step" /\ obs.q /\ running) => \A k \in Listeners : lstTimer[k] # 1
 \* C08
 T_C08_NoPanic == Observed => ~St.panicked
 T_C08_NoSpin == Observed => ~St.spin
 T_C08_NoGhostBit == (Observed /\ running) => C08_NoGhostBit
 T_C08_NoDupHandles == Observed => C08_NoDupHandles
 T_C08_FaultReportedOnce == Observed => (\A a, b \in 1..Len(St.faults) : (St.faults[a] = St.faults[b] /\ a # b) => St.everFaulted)
-T_C08_Rerouted == (Observed /\ obs.ev = "step") => C03_Pred(obs.q)
+\* the connection whose dispatch discovered the fault is re-routed; it is dropped only when no handle is left
+T_C08_Rerouted == Observed => St.droppedOther = <<>>
+T_C08_ServiceResumes == (Observed /\ obs.ev = "step") => C03_Pred(obs.q)
 
 TraceAccepted ==
   LET n == TLCGet("stats").diameter - 1 IN
